@@ -51,6 +51,9 @@ Exp(ev) ==
      \* dispatched, in order - the dispatcher keeps no state of its own and disturbs none of its caller's
      [] ev.fn \in {"mshell_script", "mshell_tables_script", "rshell_script", "rshell_tables_script"} ->
             LET ls == Split(s, {10}) IN [lines |-> ls, names |-> [k \in 1..Len(ls) |-> Dispatch(ls[k], Names, 10).name]]
+     \* creader: every line of the text (token offset, length), the number of calls until -1, the final cursor; skip from cursor n
+     [] ev.fn = "creader_lines" -> LET ls == ReadAll(s, 0, <<>>) IN [lines |-> ls, calls |-> Len(ls) + 1, cur |-> Len(s), atend |-> 1]
+     [] ev.fn = "creader_skip" -> LET r == CSkip(s, n, ToSet(a)) IN [ret |-> r.ret, cur |-> r.cur]
      [] ev.fn = "mshell_help" -> [out |-> HelpText(TabOf(n), 1)]
      [] ev.fn = "mshell_tables_help" -> [out |-> HelpText(Tab1, 1) \o HelpText(Tab2, 1)]
      [] ev.fn = "path_next" -> LET r == PathNext(s) IN [off |-> r.off, len |-> r.len]
